@@ -121,8 +121,8 @@ pub fn run_campaign(c: &Campaign, seed: u64, recheck: &dyn Fn(&Path) -> Option<(
                 *stats.classes.entry("artifact reported by libFuzzer (re-checked)".into()).or_insert(0) += 1;
                 if let Some((fl, desc)) = recheck(&e.path()) {
                     // keep the input next to the replays
-                    let keep = format!("{VERIF_DIR}/replays/fuzz-{}-{}", c.target, e.file_name().to_string_lossy());
-                    let _ = std::fs::create_dir_all(format!("{VERIF_DIR}/replays"));
+                    let keep = format!("{}/replays/fuzz-{}-{}", out_dir(), c.target, e.file_name().to_string_lossy());
+                    let _ = std::fs::create_dir_all(format!("{}/replays", out_dir()));
                     let _ = std::fs::copy(e.path(), &keep);
                     failures.push((fl, desc));
                 } else {
